@@ -153,6 +153,12 @@ func TestVerif_C07_Request(t *testing.T) {
 		rng := r.CaseRand(i)
 		cfg := &e2eCfg{}
 		cfg.ServerClientMax, cfg.PathClientMax = c07Pick(i, rng)
+		// the limits must hold for every request of a connection's history, also when the
+		// route comes out of the route cache (all requests of a route share host+method+path)
+		if i%2 == 1 {
+			cfg.CacheSize = []int{1, 2, 64}[rng.Intn(3)]
+			r.Count("req_cases_with_route_cache", 1)
+		}
 		r.Case(i, cfg)
 		gw, err := e2eStart(cfg, be)
 		if err != nil {
@@ -292,6 +298,7 @@ func TestVerif_C07_Request(t *testing.T) {
 		gw.Close()
 		be.CloseIdle()
 	}
+	r.Require("req_cases_with_route_cache", 1)
 	for _, k := range []string{"req_over_limit_cl", "req_over_limit_chunked", "req_413", "req_short", "req_passed_intact_cl", "req_passed_intact_chunked",
 		"req_exactly_limit_passed_cl", "req_exactly_limit_passed_chunked", "req_streamed_8MiB", "req_limit_from_path", "req_limit_from_server", "req_limit_from_default"} {
 		r.Require(k, 1)
